@@ -8,13 +8,20 @@ correspondence: (a) compiled rule tables of all 118 elements, (b1) calc_implicit
                 split: whole result molecules (atoms in order, hydrogen counts, bonds) and exceptions, (d) the operations that write
                 hydrogen counts themselves: Standardize.implicify_hydrogens against its Gallina mirror (whole result), results of
                 canonicalize (keep_kekule / fix_tautomers on and off) and explicify + implicify judged by the model (stored_ok),
-                (e) results of several edits inside one `with mol:` / _skip_calculation block: touched atoms fresh, stored counts valid
+                (e) results of several edits inside one `with mol:` / _skip_calculation block: touched atoms fresh, stored counts valid,
+                (f) results of the rule engine of standardize() on the instantiation of every rule of its three tables (2..4 copies sharing the
+                Any-atom, seed-chosen metals) and on covalently drawn metal-organic complexes: atoms with a changed valence state fresh;
+                Element.atomic_mass of every element with every tabulated isotope label; molecules with seed-chosen labels
+translated:     tools/gen_valence_bodies.py (bodies of _compiled_valence_rules / valence_rules / atomic_mass / the totals -> Gen.ValenceBodies),
+                tools/gen_valence_src.py (branch structure / constants of calc_implicit, check_implicit, implicify_hydrogens, hs of __standardize)
 search:         directed table search (every tabulated rule as a molecule: electron parity from the atomic number, octet rule,
                 RDKit on the bare graph), octet-rule oracle on the exhaustive space, closed form of the aromatic branch, RDKit atom
                 by atom (total Hs), aromatic atoms vs their Kekule form vs RDKit, formula / charge / mass re-derived from the atoms
                 and from RDKit, reported atoms == atoms without any accepted hydrogen count, additivity over union and split,
                 substructure vs rebuild from scratch, invariance under renumbering, every count stored by canonicalize /
-                implicify_hydrogens is a valence state (check_implicit) and RDKit's count - all on the real code, independent of the model."""
+                implicify_hydrogens is a valence state (check_implicit) and RDKit's count; isotope-labelled atoms of every element (exact table
+                sum, RDKit isotope masses, mass number); every other in-place operation (neutralize, standardize_charges, salts, coordinate
+                bonds, resonance, isotopes) leaves valence states - all on the real code, independent of the model."""
 import collections
 import concurrent.futures as cf
 import itertools
@@ -137,6 +144,31 @@ def e24(fr):
 # ---------------------------------------------------------------------------------------------------------------
 # (a) compiled tables
 
+AMASS_COQ = """
+Definition amass_case (num : Z) (iso : option Z) (got : pyres Z) : bool :=
+  pyres_eqb (fun m f => (Z.abs (m - f) * 1000000000 <=? m)%Z) (atomic_mass_e24 num iso) got."""
+
+
+def isotope_labels(cls):
+    """None (no label) and every isotope label the element accepts (keys of its isotope tables, the most common one included)"""
+    e = cls()
+    return [None] + sorted(set(e.isotopes_masses) | set(e.isotopes_distribution))
+
+
+def labelled_copy(m, rng, k=3):
+    """a copy of the molecule in which up to k atoms carry an isotope label their element tabulates: the most common isotope
+    (mdl_isotope, where tabulated) as often as any other"""
+    c = m.copy()
+    atoms = [n for n, a in c.atoms()]
+    for n in rng.sample(atoms, min(k, len(atoms))):
+        a = c._atoms[n]
+        tab = sorted(set(a.isotopes_masses) & set(a.isotopes_distribution))
+        if not tab:
+            continue
+        a.isotope = a.mdl_isotope if (a.mdl_isotope in tab and rng.random() < 0.5) else rng.choice(tab)
+    c.flush_cache()
+    return c
+
 def corr_tables(ck):
     from chython.periodictable import Element
     from chython.exceptions import ValenceError
@@ -179,10 +211,22 @@ def corr_tables(ck):
         meta.append(('valence_rules', c.__name__, chg, rad, v, got[:60]))
         ck.case(('vr', c.__name__, chg, rad, v), nontrivial=got.startswith('Ok'))
         ck.count('valence_rules:' + ('rules' if got.startswith('Ok') else got.split()[1]))
-    ok, failing, log = coqcases.run_cases('c04t', IMPORTS, cases, extra=EXTRA, shard=300)
+    # Element.atomic_mass of every element, unlabelled and with EVERY tabulated isotope label (the most common one included): the
+    # float of the code against the exact decimal of the model (relative 1e-9), and the exceptions
+    for c in classes:
+        for iso in isotope_labels(c):
+            def am():
+                return c(isotope=iso).atomic_mass if iso is not None else c().atomic_mass
+            got = pyres(am, lambda v: zraw(int(Fraction(v) * 10 ** 24)))
+            cases.append(f'amass_case {zraw(c().atomic_number)} {opt(iso, zraw)} ({got})')
+            meta.append(('atomic_mass', c.__name__, iso, got))
+            ck.case(('atomic_mass', c.__name__, iso), nontrivial=iso is not None)
+            ck.count('atomic_mass:' + ('unlabelled' if iso is None else 'the common (mdl) isotope' if iso == c().mdl_isotope else 'another isotope'))
+    ok, failing, log = coqcases.run_cases('c04t', IMPORTS, cases, extra=EXTRA + AMASS_COQ, shard=300)
     good = ok and not failing
     ck.oblige('correspondence: Element._compiled_valence_rules of all 118 elements and valence_rules lookups == Coq model '
-              '(keys and rule lists in insertion order)', good, 'correspondence', log or str([meta[i] for i in failing[:8]]))
+              '(keys and rule lists in insertion order); Element.atomic_mass of every element unlabelled and with every tabulated isotope label == '
+              'Valence.atomic_mass_e24 (relative 1e-9)', good, 'correspondence', log or str([meta[i] for i in failing[:8]]))
     ck.extra['compiled_rule_entries'] = n_rules
     ck.sample({'model_call': cases[93][:300], 'meta': repr(meta[93])})
     if not good:
@@ -704,6 +748,14 @@ def corr_molecules(ck):
         except Exception:
             continue
         add(('corpus-kekule', smi), k, stored=not any(int(bd) == 4 for *_, bd in k.bonds()))
+    # isotope labels (every tabulated one, the most common isotope as often as the others): the totals, in particular the mass
+    for smi in pool[:60 if ck.tier == 'quick' else 600] + ['[12CH4]', 'C[35Cl]', '[1H]O[2H]', '[16OH2]', 'C[14NH2]', '[13CH3][12CH3]', '[10B](O)(O)O', 'C[79Br]', '[32SH2]']:
+        try:
+            m = labelled_copy(smiles(smi), rng)
+        except Exception:
+            ck.count('molecules:labelled copy raised')
+            continue
+        add(('labelled', smi, tuple((n, a.isotope) for n, a in m.atoms() if a.isotope)), m, labels=False, recalc=False)
     ok, failing, log = coqcases.run_cases('c04m', IMPORTS, cases, extra=EXTRA, shard=150)
     good = ok and not failing
     ck.oblige(f'correspondence: per-atom calc_implicit / check_implicit / calc_labels and per-molecule fix_structure, brutto, charge, radical, mass, '
@@ -1234,6 +1286,13 @@ def run_history(smi, edits, mode, r):
     return m, edits, sorted(n for n in touched if n in m._atoms)
 
 
+def MoleculeContainerOf(atom):
+    from chython import MoleculeContainer
+    m = MoleculeContainer()
+    m.add_atom(atom)
+    return m
+
+
 def rebuild(m):
     from chython import MoleculeContainer
     x = MoleculeContainer()
@@ -1290,6 +1349,162 @@ def corr_histories(ck):
     ck.extra['history_cases'] = len(cases)
     if not good:
         ck.unchecked('correspondence ValenceArom.fresh_on / Valence.stored_ok on the results of edit histories inside one block', log[-1500:],
+                     [repr(meta[i]) for i in failing[:20]])
+    return good
+
+
+# ---------------------------------------------------------------------------------------------------------------
+# (f) the rule engine of standardize() writes charges / radicals / bond orders (also order 8: the metal-organic rules turn covalent
+#     metal-ligand bonds into coordinate ones, which no longer count for the valence) and recalculates the hydrogens of the atoms it
+#     touched: afterwards EVERY atom whose charge, radical flag or non-8 bonds changed must carry the count of its new state
+
+STD_METALS = ['Ni', 'Pd', 'Fe', 'Ti', 'Cu', 'Pt', 'Rh', 'Zn', 'Co', 'Ru', 'Mn', 'Cr', 'Ir', 'Ag', 'Au', 'Mo', 'W', 'Li', 'Mg', 'Al', 'Sn', 'Hg', 'Zr', 'V']
+STD_COVALENT = ['O#C[Ni](C#O)(C#O)C#O', 'O#C[Fe](C#O)(C#O)(C#O)C#O', 'Cl[Pd](Cl)(P(C)(C)C)P(C)(C)C', 'C[Pd](Cl)=C1N(C)C=CN1C', 'Cl[Pd](Cl)=C1N(C)CCN1C',
+                'N#C[Cu]', 'N#C[Fe](C#N)(C#N)(C#N)(C#N)C#N', 'Cl[Pt](Cl)(N(C)C)N(C)C', 'C[Zn]N(C)(C)C', 'Cl[Rh](P(C)(C)C)(P(C)(C)C)P(C)(C)C', 'O=C=N[Ag]', 'N#CO[Ag]', 'N#CS[Hg]SC#N',
+                'C[Mg]Br', 'C[Li]', 'CO[Na]', 'Cl[Ti](Cl)(Cl)C#O', 'O=C([Fe])[Fe]', 'C1=CC2C(=C1)[Fe]2', '[Fe]C(=O)C', 'C[O+](C)[Cu]', 'C[N+](C)(C)[Cu]', 'C[P+](C)(C)[Au]',
+                '[Pd]=C1N(C)C=CN1C', 'CN1C=CN(C)C1=[Pd]=C1N(C)C=CN1C', 'CN(=O)=O', 'CS(=O)(=O)[S-]', 'C[N+]#N', 'CN=N#N', 'OC=C', 'CC(=N)O']
+
+
+def std_instance(rule, rng, metal, copies=1):
+    """the pattern of a standardize rule built as a real molecule (fresh hydrogen counts): named elements as they are, element lists /
+    bond-order lists by a seed-dependent choice, A = carbon, M = the given metal, the charge / radical flag the pattern names, carbon
+    substituents up to the smallest allowed neighbour count; `copies` > 1: that many copies sharing the rule's first Any-atom (the
+    overlap the engine accepts: several ligands on one metal, geminal groups)"""
+    from chython import MoleculeContainer
+    from chython.periodictable import Element
+    from chython.periodictable.base.query import AnyMetal, AnyElement, ListElement
+    q, any_atoms = rule[0], rule[3]
+    shared = any_atoms[0] if (any_atoms and copies > 1) else None
+    if copies > 1 and shared is None:
+        return None
+    m = MoleculeContainer()
+
+    def num(c, n):
+        return 900 if n == shared else n + 100 * c
+    choice = {}
+    for c in range(copies):
+        for n, a in q._atoms.items():
+            if n == shared and c:
+                continue
+            if type(a) is AnyMetal:
+                el = Element.from_symbol(metal)()
+            elif type(a) is AnyElement:
+                el = Element.from_symbol('C')(charge=a.charge, is_radical=a.is_radical)
+            elif type(a) is ListElement:
+                el = Element.from_atomic_number(choice.setdefault(n, rng.choice(a.atomic_numbers)))(charge=a.charge, is_radical=a.is_radical)
+            else:
+                el = Element.from_atomic_number(a.atomic_number)(charge=a.charge, is_radical=a.is_radical)
+            m.add_atom(el, num(c, n), _skip_calculation=True)
+        for n, k, bd in q.bonds():
+            m.add_bond(num(c, n), num(c, k), choice.setdefault(('b', n, k), rng.choice(bd.order)), _skip_calculation=True)
+    nxt = 1000
+    for c in range(copies):
+        for n, a in q._atoms.items():
+            if n == shared or type(a) is AnyMetal:
+                continue
+            deg = len(q._bonds[n])
+            want = [d for d in (a.neighbors or ()) if d >= deg]
+            for _ in range((min(want) - deg) if want else 0):
+                m.add_atom('C', nxt, _skip_calculation=True)
+                m.add_bond(num(c, n), nxt, 1, _skip_calculation=True)
+                nxt += 1
+    m._changed = None
+    m.fix_structure()
+    return m
+
+
+def valence_signature(m):
+    """what the hydrogen count of an atom depends on: charge, radical flag, multiset of (order, neighbour element) over non-8 bonds"""
+    return {n: (a.charge, a.is_radical, tuple(sorted((int(bd), m._atoms[k].atomic_number) for k, bd in m._bonds[n].items() if int(bd) != 8)))
+            for n, a in m.atoms()}
+
+
+def gen_std_inputs(ck, rng):
+    """[(tag, replay code building `m`, molecule)]: every rule of the three tables of standardize (double / single / metal-organic) on
+    its own instantiation, alone and as 2..4 copies sharing its Any-atom, metals chosen by the seed; hand-written covalently drawn
+    metal-organic complexes (carbonyls, cyanides, phosphines, amines, NHC carbenes) and functional groups"""
+    from chython import smiles
+    from chython.algorithms.standardize import molecule as engine
+    out = []
+    thorough = ck.tier == 'thorough'
+    for cname in ('double_rules', 'single_rules', 'metal_rules'):
+        for i, rule in enumerate(getattr(engine, cname)):
+            has_metal = cname == 'metal_rules'
+            for copies in ((1, 2, 3, 4) if thorough else (1, rng.choice([2, 3, 4]))):
+                for metal in rng.sample(STD_METALS, (4 if thorough else 1) if has_metal else 1):
+                    seed = rng.randrange(10 ** 6)
+                    try:
+                        m = std_instance(rule, random.Random(seed), metal, copies)
+                    except Exception:
+                        ck.count('std-rules:instance could not be built')
+                        continue
+                    if m is None:
+                        continue
+                    code = ('import sys, random; sys.path[:0] = ["/verif/harness", "/verif/tools"]\nfrom checks.C04 import std_instance\nfrom chython.algorithms.standardize import molecule as engine\n'
+                            f'm = std_instance(engine.{cname}[{i}], random.Random({seed}), {metal!r}, {copies})')
+                    out.append(((cname, i, copies, metal if has_metal else '-'), code, m))
+    for smi in STD_COVALENT:
+        try:
+            m = smiles(smi)
+            m.kekule()
+        except Exception:
+            continue
+        out.append((('smiles', smi), f'from chython import smiles; m = smiles({smi!r}); m.kekule()', m))
+    return out
+
+
+def corr_std_rules(ck):
+    rng = random.Random(f'{ck.seed}:c04:stdrules')
+    capped = Capped(ck, 6)
+    cases, meta = [], []
+    for tag, code, m0 in gen_std_inputs(ck, rng):
+        fresh_in = {n: a.implicit_hydrogens for n, a in m0.atoms()} == {n: a.implicit_hydrogens for n, a in rebuild(m0).atoms()}
+        for call in ('standardize()', 'standardize(fix_tautomers=False)') + (('canonicalize()',) if tag[0] == 'smiles' else ()):
+            m = m0.copy()
+            s0 = valence_signature(m)
+            try:
+                eval('m.' + call, {'m': m})
+            except Exception as e:
+                ck.count(f'std-rules:{call} raised {type(e).__name__}')
+                continue
+            s1 = valence_signature(m)
+            touched = sorted(n for n in s1 if s0.get(n) != s1[n])
+            ck.case(('std-rule', tag, call), nontrivial=bool(touched))
+            ck.count(f'std-rules:{tag[0]} ({call}) atoms with a changed valence state={min(len(touched), 4)}')
+            if any(int(bd) == 8 for *_, bd in m.bonds()) and not any(int(bd) == 8 for *_, bd in m0.bonds()):
+                ck.count('std-rules:results with new coordinate bonds')
+            if not touched:
+                continue
+            rp = code + f'\nm.{call}\nprint(str(m), [(n, a.atomic_symbol, a.charge, a.implicit_hydrogens, [h for h in range(9) if m.check_implicit(n, h)]) for n, a in m.atoms()], m.check_valence())'
+            inp = {'molecule': str(m0), 'built_from': list(tag), 'call': call}
+            loc = not any(int(bd) == 4 for *_, bd in m.bonds())
+            bad = stored_states_ok(m) if loc else []
+            if bad:
+                capped.counterexample(f'std-state:{tag}:{call}', f'after {call} an atom carries a hydrogen count that is not a valence state of its element, charge and bonds '
+                                      '(a stale count: the rule engine changed the atom\'s bonds or charge and did not recalculate it), so check_valence() / the formula are wrong',
+                                      inp, [{'atom': n, 'element': e, 'stored': h, 'accepted': acc} for n, e, h, acc in bad],
+                                      'stored count accepted by check_implicit; None only if no count is accepted', 'check_implicit(n, h) for h = 0..8 on the result', replay_py=rp)
+            elif fresh_in and loc:       # (calc_implicit leaves aromatic heteroatoms to kekule(): no rebuild of aromatic results)
+                try:
+                    x = rebuild(m)
+                    hs, hx = {n: a.implicit_hydrogens for n, a in m.atoms()}, {n: a.implicit_hydrogens for n, a in x.atoms()}
+                    if hs != hx:
+                        capped.counterexample(f'std-rebuild:{tag}:{call}', f'after {call} the hydrogen counts differ from the same structure built from scratch',
+                                              inp, {n: (hs[n], hx[n]) for n in hs if hs[n] != hx[n]}, 'equal counts', 'rebuild through add_atom / add_bond', replay_py=rp)
+                except Exception:
+                    ck.count('std-rules:rebuild raised')
+            if len(cases) < (260 if ck.tier == 'quick' else 4000):
+                cases.append(f'(let g := {coqmol.mol_term(m)} in history_case g {lst(touched, zraw)} {b(loc)})')
+                meta.append((tag, call, touched, str(m)))
+    ok, failing, log = coqcases.run_cases('c04s', IMPORTS_X, cases, extra=EXTRA, shard=150)
+    good = ok and not failing
+    ck.oblige(f'correspondence: results of standardize() / standardize(fix_tautomers=False) on the instantiation of every rule of its three tables (alone and 2..4 copies '
+              f'sharing the Any-atom, seed-chosen metals) and on covalently drawn metal-organic complexes ({len(cases)} results in which a valence state changed): the atoms whose '
+              'charge / radical flag / non-8 bonds changed (found by comparing input and result, never from the engine\'s own set) carry what the model\'s calc_implicit gives '
+              '(fresh_on), every stored count is a valence state for the model (stored_ok)', good, 'correspondence', log or str([meta[i] for i in failing[:6]]))
+    ck.extra['std_rule_cases'] = len(cases)
+    if not good:
+        ck.unchecked('correspondence ValenceArom.fresh_on / Valence.stored_ok on the results of the standardize rule engine', log[-1500:],
                      [repr(meta[i]) for i in failing[:20]])
     return good
 
@@ -1589,6 +1804,15 @@ class Capped:
         return getattr(self.ck, name)
 
 
+OPS = ['neutralize()', 'neutralize(keep_charge=False)', 'standardize_charges()', 'remove_coordinate_bonds()', 'remove_coordinate_bonds(keep_to_terminal=False)', 'clean_isotopes()',
+       'fix_resonance()', 'remove_metals()', 'remove_acids()', 'split_metal_salts()']
+OPS_EXTRA = ['[NH4+].[Cl-]', 'CC(=O)[O-].[Na+]', 'C[NH3+]', 'CC(=O)O[Na]', 'C[N+](C)(C)C.[OH-]', 'OC(=O)CC[NH3+]', '[O-]C1=CC=CC=C1', 'CS(=O)(=O)[O-]', 'C[S+](C)C', 'N~[Cu]~N', 'C~[Fe]',
+             'N(C)(C)(C)~[Pd](Cl)Cl', 'O~[Mg]', 'CO~[Li]', 'CC(=O)O~[Na]', 'C1=CC=CC1~[Fe]', 'CC(=O)O.[Na]', 'Cl[Na]', 'CC(=O)O[K]', 'C[Mg]Br', 'CCO[Na]', '[Na+].[Cl-].O', 'OS(O)(=O)=O.NC',
+             '[2H]C([2H])O', '[13CH3][O-]', 'C[N+]([O-])=O', '[CH2-][N+]#N', 'C=[N+]=[N-]', 'NC(N)=[NH2+]', 'CC([O-])=CC(C)=[OH+]', 'C[N+]1=CC=CC=C1.[I-]', 'CC(=O)O[Mg]OC(C)=O', 'CC(=O)O[Ca]O',
+             'CS[K]', 'C[O-]~[Na+]', 'OP(=O)(O)O[Na]', 'O=S(=O)(O[Li])C(F)(F)F', 'CN(C)~[Li]', 'Oc1ccccc1~[K]']
+ALKALI = {3, 11, 19, 37, 55, 87, 4, 12, 20, 38, 56, 88}
+
+
 def search(ck):
     ck = Capped(ck)
     from chython import smiles
@@ -1699,6 +1923,64 @@ def search(ck):
         ex = float(sum(exact_atomic_mass(a) + a.implicit_hydrogens * hm for _, a in m.atoms()))
         if abs(float(f) - ex) > 1e-9 * max(1.0, ex):
             ck.counterexample(f'rederive-mass:{smi}', 'molecular_mass is not the sum of atomic masses incl. implicit hydrogens', {'smiles': smi}, float(f), ex, 'exact rational sum over the isotope tables', replay_py=rp)
+    # isotope labels: one atom of EVERY element with EVERY label its tables hold (the most common isotope included) as a molecule of its
+    # own, and corpus molecules with a few labelled atoms - mass against the exact sum re-derived from the isotope tables (labelled atom =
+    # the mass of that isotope, never the natural average), against RDKit's isotope masses (Z <= 92; the tables agree to 2e-3) and
+    # against the mass number (a nuclide weighs its mass number to 0.25 u)
+    from chython.periodictable import Element
+    pt = Chem.GetPeriodicTable()
+    for cls in Element.__subclasses__():
+        for iso in isotope_labels(cls):
+            try:
+                m = MoleculeContainerOf(cls(isotope=iso) if iso is not None else cls())
+            except Exception:
+                ck.count('search:isotope atom could not be built')
+                continue
+            a = m._atoms[1]
+            h = a.implicit_hydrogens or 0
+            ck.case(('isotope-mass', cls.__name__, iso), nontrivial=iso is not None)
+            ck.count('search:isotope-labelled single atoms' if iso is not None else 'search:unlabelled single atoms')
+            try:
+                got = m.molecular_mass
+                ex = float(exact(a.isotopes_masses[iso]) + h * hm) if iso is not None else float(exact_atomic_mass(a) + h * hm)
+            except Exception:
+                ck.count('search:isotope mass raised')
+                continue
+            refs = {'exact sum over the isotope tables': (ex, 1e-9 * max(1.0, ex))}
+            if iso is not None:
+                refs['mass number'] = (iso + h * 1.008, 0.25)
+                if a.atomic_number <= 92:
+                    try:
+                        refs['RDKit GetMassForIsotope'] = (pt.GetMassForIsotope(a.atomic_number, iso) + h * pt.GetAtomicWeight(1), 3e-3)
+                    except Exception:
+                        pass
+            for name, (ref, tol) in refs.items():
+                if ref > 0 and abs(got - ref) > tol:
+                    lab = f'[{iso or ""}{cls.__name__}]'
+                    ck.counterexample(f'isotope-mass:{cls.__name__}:{iso}', f'molecular_mass of the one-atom molecule {lab} (+ {h} implicit H) is not the mass of that '
+                                      'isotope plus the hydrogens' if iso is not None else f'molecular_mass of the one-atom molecule {lab} is not the natural-abundance mass plus the hydrogens',
+                                      {'element': cls.__name__, 'isotope': iso, 'implicit_hydrogens': h}, got, {name: ref, 'tolerance': tol}, name,
+                                      replay_py=f"from chython import MoleculeContainer\nfrom chython.periodictable import {cls.__name__}\nm = MoleculeContainer(); m.add_atom({cls.__name__}({'isotope=%d' % iso if iso is not None else ''}))\n"
+                                                f"print(m.molecular_mass, m.atom(1).atomic_mass, m.atom(1).isotopes_masses.get({iso}), m.atom(1).implicit_hydrogens)")
+                    break
+    for smi, m0 in parsed[:150 if ck.tier == 'quick' else 1500]:
+        if any(a.implicit_hydrogens is None for _, a in m0.atoms()):
+            continue
+        try:
+            m = labelled_copy(m0, rng)
+        except Exception:
+            ck.count('search:labelled copy raised')
+            continue
+        labs = [(n, a.isotope) for n, a in m.atoms() if a.isotope]
+        ck.case(('labelled-mass', smi, tuple(labs)), nontrivial=bool(labs))
+        ck.count('search:labelled corpus molecules')
+        ex = float(sum((exact(a.isotopes_masses[a.isotope]) if a.isotope else exact_atomic_mass(a)) + a.implicit_hydrogens * hm for _, a in m.atoms()))
+        got = float(m)
+        if abs(got - ex) > 1e-9 * max(1.0, ex):
+            ck.counterexample(f'labelled-mass:{smi}:{labs}', 'molecular_mass of a molecule with isotope-labelled atoms is not the sum of the labelled isotopes\' masses, the natural '
+                              'masses of the unlabelled atoms and of the implicit hydrogens', {'smiles': smi, 'labels (atom, isotope)': labs}, got, ex,
+                              'exact rational sum over the isotope tables',
+                              replay_py=f"from chython import smiles; m = smiles({smi!r}); m.kekule()\nfor n, i in {labs!r}: m.atom(n).isotope = i\nm.flush_cache(); print(float(m))")
     # reported atoms == atoms without any accepted hydrogen count, on perturbed molecules (localised bonds)
     sub = parsed[:400 if ck.tier == 'quick' else 4000]
     for smi, m0 in sub:
@@ -1820,6 +2102,51 @@ def search(ck):
                                   'of its element, charge and bonds', {'smiles': smi, 'keep_kekule': kk}, [{'atom': n, 'element': e, 'stored': h, 'accepted': acc} for n, e, h, acc in bad],
                                   'stored count accepted by check_implicit', 'check_implicit(n, h) for h = 0..8 on the result',
                                   replay_py=f"from chython import smiles; m = smiles({smi!r}); m.canonicalize(keep_kekule={kk}); print(str(m), [(n, a.atomic_symbol, a.implicit_hydrogens, [h for h in range(9) if m.check_implicit(n, h)]) for n, a in m.atoms()])")
+    # every other public operation that edits charges / bonds / atoms in place (neutralisation, charge standardisation, salts, coordinate
+    # bonds, resonance, isotopes): afterwards every stored count must be a valence state, and - when the input's counts were fresh and the
+    # result has localised bonds - the result rebuilt from scratch must carry the same counts
+    ops_pool = OPS_EXTRA + STD_COVALENT + corpus.sample(corpus.lipo(), 30 if ck.tier == 'quick' else 600, ck.seed, 'c04ops')
+    for smi in ops_pool:
+        try:
+            m0 = smiles(smi)
+            m0.kekule()
+        except Exception:
+            continue
+        h_in = {n: a.implicit_hydrogens for n, a in m0.atoms()}
+        try:
+            fresh_in = h_in == {n: a.implicit_hydrogens for n, a in rebuild(m0).atoms()}
+        except Exception:
+            fresh_in = False
+        for op in OPS:
+            m = m0.copy()
+            try:
+                changed = eval('m.' + op, {'m': m})
+            except Exception as e:
+                ck.count(f'search:ops:{op} raised {type(e).__name__}')
+                continue
+            ck.case(('op-state', smi, op), nontrivial=bool(changed))
+            ck.count(f'search:ops:{op} ' + ('changed the molecule' if changed else 'left it alone'))
+            if not changed or any(int(bd) == 4 for *_, bd in m.bonds()):
+                continue
+            rp = f"from chython import smiles; m = smiles({smi!r}); m.kekule(); print(m.{op}, str(m), [(n, a.atomic_symbol, a.charge, a.implicit_hydrogens, [h for h in range(9) if m.check_implicit(n, h)]) for n, a in m.atoms()], m.check_valence())"
+            bad = stored_states_ok(m)
+            stale = {}
+            if not bad and fresh_in:
+                try:
+                    hx = {n: a.implicit_hydrogens for n, a in rebuild(m).atoms()}
+                    stale = {n: (a.implicit_hydrogens, hx[n]) for n, a in m.atoms() if a.implicit_hydrogens != hx[n]}
+                except Exception:
+                    ck.count('search:ops:rebuild raised')
+            if bad or stale:
+                # known: split_metal_salts() cuts a COORDINATE bond (order 8) between a group I / II metal and an acceptor as if it were ionic
+                coord = op == 'split_metal_salts()' and bad and all(any(int(bd) == 8 and m0._atoms[k].atomic_number in ALKALI for k, bd in m0._bonds[n].items()) for n, *_ in bad)
+                key = 'ops-state:split_metal_salts:coordinate-bond' if coord else f'ops-state:{op}:{smi}'
+                ck.counterexample(key, f'after {op} an atom carries a hydrogen count that is not a valence state of its element, charge and bonds (the operation changed its charge / bonds and '
+                                  'kept the old count), so check_valence() does not report it and the formula counts a hydrogen too many / too few' if bad else
+                                  f'after {op} the hydrogen counts differ from the same structure built from scratch', {'smiles': smi, 'operation': op},
+                                  [{'atom': n, 'element': e, 'stored': h, 'accepted': acc} for n, e, h, acc in bad] if bad else stale,
+                                  'stored count accepted by check_implicit (None only if no count is accepted); equal to the count of the rebuilt structure',
+                                  'check_implicit(n, h) for h = 0..8 on the result / rebuild through add_atom + add_bond', replay_py=rp)
     # boundary: the empty molecule
     from chython import MoleculeContainer
     try:
@@ -1851,11 +2178,12 @@ def search(ck):
 
 
 def run(ck):
-    ck.trusted += ['translators tools/gen_elements.py (Python ast over periodictable/group*.py), tools/gen_valence_src.py (ast over calc_implicit / check_implicit / implicify_hydrogens)',
+    ck.trusted += ['translators tools/gen_elements.py (Python ast over periodictable/group*.py), tools/gen_valence_src.py (ast over calc_implicit / check_implicit / implicify_hydrogens / Standardize.__standardize), tools/gen_valence_bodies.py (statement compiler over the bodies of Element._compiled_valence_rules / valence_rules / atomic_mass and MoleculeContainer.molecular_charge / is_radical / molecular_mass / brutto; run-time library coq/model/ValenceSrcLib.v)',
                    'correspondence runner harness/checks/C04.py + harness/coqcases.py + harness/coqmol.py',
                    'CachedMethods shim harness/boot.py', 'CPython 3.12.1', 'RDKit 2026.3 (search only)']
     ck.assumptions += ['calc_implicit / check_implicit / _compiled_valence_rules / totals / check_valence (coq/model/Valence.v) and union / substructure / '
-                       'split (coq/model/ValenceArom.v) are hand-modelled; tie = '
+                       'split (coq/model/ValenceArom.v) are hand-modelled; _compiled_valence_rules, valence_rules, atomic_mass and the totals are proved equal to their bodies '
+                       'translated from the source on every run (Gen.ValenceBodies); for the rest the tie = '
                        'exact comparison of all 118 compiled tables, exhaustive comparison on the organic environment space and comparison on '
                        'rule-directed, random, malformed and corpus molecules',
                        'molecular_mass is modelled over exact decimals (x 10^24); the float result of the code is compared with the exact value '
@@ -1890,7 +2218,7 @@ def run(ck):
         t.append(time.time())
         ck.extra.setdefault('step_seconds', {})[name] = round(t[-1] - t[-2], 1)
 
-    proved = common.standard_proof_steps(ck, translators=['elements', 'valence_src'])
+    proved = common.standard_proof_steps(ck, translators=['elements', 'valence_src', 'valence_bodies'])
     directed_done = False
     if not proved:
         # a translator / table theorem broke: look for a concrete molecule FIRST (whatever happens to the later steps), then
@@ -1916,6 +2244,8 @@ def run(ck):
     lap('writers')
     tied_g = corr_histories(ck)
     lap('histories')
+    tied_g = corr_std_rules(ck) and tied_g
+    lap('std-rules')
     if not directed_done:
         directed_tables(ck)
     lap('directed')
